@@ -3600,6 +3600,9 @@ def cli_main():
         outputs.append(args.labels)
     if hex_offset is not None:
         outputs.append(args.output + '.hex')
+    # each of them has to be a file of its own
+    if len({os.path.realpath(path) for path in outputs}) != len(outputs):
+        raise SystemExit('output files must differ: {}'.format(', '.join(outputs)))
     for path in outputs:
         # (a path that ends in a separator names a directory, whether or not it exists yet)
         if os.path.isdir(path) or not os.path.basename(path) or not os.path.isdir(os.path.dirname(os.path.abspath(path))):
